@@ -161,6 +161,30 @@ def compile_prop(vfile, timeout=600):
     return r.stdout
 
 
+def coqchk_axioms(vfile, timeout=1500):
+    """coqchk -o on the compiled property file and everything it depends on (independent re-check of the .vo files).
+    Returns (ok, axioms or None, tail of the output).  axioms == [] means coqchk printed `Axioms: <none>`."""
+    logical = "AiuProps." + os.path.basename(vfile)[:-2]
+    lk = _lock()
+    try:
+        r = subprocess.run(["timeout", str(timeout), "coqchk", "-silent", "-o"] + QFLAGS + [logical], cwd=COQ,
+                           stdout=subprocess.PIPE, stderr=subprocess.STDOUT, text=True)
+    finally:
+        lk.close()
+    out = r.stdout or ""
+    if r.returncode != 0:
+        return False, None, out[-1500:]
+    m = re.search(r"\* Axioms:(.*?)(?:\n\s*\n\* |\Z)", out, re.S)
+    if not m:
+        return False, None, out[-1500:]
+    body = m.group(1).strip()
+    axioms = [] if body == "<none>" else [ln.strip() for ln in body.splitlines() if ln.strip()]
+    clean = all(re.search(r"\* %s: <none>" % re.escape(k), out) for k in
+                ("Constants/Inductives relying on type-in-type", "Constants/Inductives relying on unsafe (co)fixpoints",
+                 "Inductives whose positivity is assumed"))
+    return clean, axioms, out[-1500:]
+
+
 def parse_assumptions(out):
     """Print Assumptions output -> (n_closed, sorted list of axiom names)."""
     closed = len(re.findall(r"Closed under the global context", out))
